@@ -42,6 +42,9 @@ def gen_history(rng, nops):
 
     while len(ops) < nops:
         r = rng.random()
+        if rng.random() < 0.08:
+            add(["compile_types", rng.choice(["ct_low", "ct_bad", "ct_narrow", "ct_narrow_bad"]), rng.choice(["none", "q10", "narrow3", "narrow5", "both"])], ("ct",))
+            continue
         if r < 0.35 or not ops:
             sid = rng.choice(ANY)
             if sid.startswith("caller") or sid.startswith("param"):
@@ -171,6 +174,10 @@ CORPUS = [
     [["compile", "named_h", True, "default", True], ["export", 0, "qiskit", "gate"], ["export", 0, "qasm", "circuit"], ["export", 0, "qiskit", "gate"], ["export", 0, "cirq", "gate"]],
     [["compile", "named_t", True, "default", True], ["export", 0, "qiskit", "gate"], ["grover", 0, None], ["export", 2, "qasm", "gate"]],
     [["compile", "named_size", True, "fast", True], ["export", 0, "qiskit", "circuit"], ["export", 0, "qiskit", "gate"], ["truth_table", 0], ["export", 0, "qasm", "circuit"]],
+    # custom types: a rejected compilation must not leave its types behind, two types of one name must not be confused
+    [["compile_types", "ct_low", "q10"], ["compile_types", "ct_bad", "q10"], ["compile_types", "ct_low", "none"], ["compile_types", "ct_low", "q10"]],
+    [["compile_types", "ct_narrow_bad", "narrow5"], ["compile_types", "ct_narrow", "narrow3"], ["compile_types", "ct_narrow", "none"], ["compile_types", "ct_narrow", "narrow5"]],
+    [["compile_types", "ct_narrow", "narrow5"], ["compile_types", "ct_narrow", "narrow3"], ["compile", "cmp", True, "default", True], ["compile_types", "ct_low", "both"], ["compile_types", "ct_bad", "both"], ["compile_types", "ct_narrow", "none"]],
     [["compile_callable", "cmp", "default", False], ["compile", "cmp", True, "default", True], ["compile_callable", "cmp", "default", True], ["grover", 0, None], ["export", 2, "qasm", "circuit"]],
     [["compile_callable", "add", "default", True], ["compile_callable", "tuple", "default", False], ["truth_table", 0], ["decompile", 1]],
     [["compile", "inc", True, "default", True], ["defs", "param_caller", 0], ["bind", 1, {"c": 1}], ["bind", 1, {"c": 2}], ["bind", 1, {"c": 1}], ["truth_table", 3]],
